@@ -78,3 +78,18 @@ def _r14(p):
 def _r13b(p):
     # the implementation stored a block whose transactions exceed the block size cap (WellFormed clause 9)
     return not p.get("corr") and p.get("code", 0) % 10000 == 9
+
+
+
+@predicate("C14-reconnect")
+def _c14_reconnect(p):
+    # Check/C14.v conn_prop code 5: the only deviation from "tampered => rejected" is that whole frames sealed by the
+    # same two nodes in the same network on ANOTHER connection (same direction) were delivered, and everything else
+    # was delivered exactly as if those frames were genuine
+    return not p.get("corr") and p.get("code") == 5
+
+
+@predicate("C14-reflect")
+def _c14_reflect(p):
+    # conn_prop code 6: as above, the spliced frames were sealed by the receiver itself (opposite direction)
+    return not p.get("corr") and p.get("code") == 6
